@@ -27,4 +27,32 @@ theorem enter_append (g : Globals) (p : List (Fin 3 × Nat)) (i : Fin 3) (a : Na
   | nil => rfl
   | cons x p ih => obtain ⟨j, b⟩ := x; simp only [List.cons_append, enter]; exact ih _
 
+/-- A *history*: top-level programs run one after another, each caught by the caller
+    (`try: p except BaseException: pass`); the worlds after each of them, in order. -/
+def historyStates (M : Managers) : List (List Cmd) → World → List World
+  | [], _ => []
+  | p :: ps, w => (runCmds M p w).1 :: historyStates M ps (runCmds M p w).1
+
+/-- The world at the end of a history. -/
+def runHistory (M : Managers) : List (List Cmd) → World → World
+  | [], w => w
+  | p :: ps, w => runHistory M ps (runCmds M p w).1
+
+/-- A history is the program `try: p₁ …; try: p₂ …; …` of the command language the driver runs. -/
+theorem runHistory_eq_tryC (M : Managers) :
+    (ps : List (List Cmd)) → (w : World) → runCmds M (ps.map .tryC) w = (runHistory M ps w, .ok)
+  | [], _ => rfl
+  | p :: ps, w => by
+    simp only [List.map, runCmds, runCmd, runHistory]
+    exact runHistory_eq_tryC M ps _
+
+theorem historyStates_getLast (M : Managers) :
+    (ps : List (List Cmd)) → (w : World) → (historyStates M ps w).getLast? = if ps = [] then none else some (runHistory M ps w)
+  | [], _ => rfl
+  | [p], w => rfl
+  | p :: q :: ps, w => by
+    have ih := historyStates_getLast M (q :: ps) (runCmds M p w).1
+    simp only [historyStates, runHistory, List.getLast?_cons_cons] at ih ⊢
+    simpa using ih
+
 end Ctx
